@@ -185,9 +185,6 @@ theorem C08_prefix_order_round0_index_negative : leaderIndex 4 8 0 = -1 := by de
 /-- … and for a height ≥ 2^63 (negative after `int(...)`) even for round 1 -/
 theorem C08_prefix_order_huge_height_index_negative : leaderIndex 4 18446744073709551615 1 = -1 := by decide
 
-def share4 : Share :=
-  { committee := [1, 2, 3, 4], quorum := 3, liquidated := false, hasMeta := true, statusAttesting := true,
-    pendingQueued := false, activationEpoch := 0, index := 123 }
 
 def round0Proposal : QMsg :=
   { mtype := 0, height := 32000, round := 0, root := 1, fullData := some 1, signers := [1], sigLen := 96, sigZero := false,
@@ -197,20 +194,15 @@ def round0Proposal : QMsg :=
 theorem C08_prefix_order_round0_panics :
     validConsensusSigners share4 round0Proposal = .error (.panic .leaderIndexOutOfRange) := by decide
 
-def praterCfg : NetCfg := { genesis := 1616508000, slotDur := 12, slotsPerEpoch := 32, epochsPerPeriod := 256, permissionlessEpoch := 0 }
-def ctx0 : Ctx := { cfg := praterCfg, duties := { proposer := [], sync := [] } }
 
-def inputOf (m : QMsg) (unixNow : Int) : Input :=
-  { vid := 1, role := 0, dataLen := 300, domainOk := true, pkOk := true, share := some share4, body := .consensus m,
-    envSig := .none, now := GoTime.unix unixNow, wallEpoch := 1000 }
 
 /-- … while the CURRENT order turns it down with the zero-round rule before the leader is computed -/
 theorem C08_fixed_order_round0_rejected :
-    (validate ctx0 State.empty (inputOf round0Proposal (1616508000 + 12 * 32000))).2 = .reject .ZeroRound := by decide
+    (validate ctx0 State.empty (inputAt round0Proposal (1616508000 + 12 * 32000))).2 = .reject .ZeroRound := by decide
 
 /-- … and a height of 2^64 − 1 is refused by the slot window (early message) -/
 theorem C08_fixed_order_huge_height_ignored :
-    (validate ctx0 State.empty (inputOf { round0Proposal with round := 1, height := 18446744073709551615 } (1616508000 + 12 * 32000))).2
+    (validate ctx0 State.empty (inputAt { round0Proposal with round := 1, height := 18446744073709551615 } (1616508000 + 12 * 32000))).2
       = .ignore .EarlyMessage := by decide
 
 /-! ## necessity of the share hypothesis
@@ -219,7 +211,7 @@ theorem C08_fixed_order_huge_height_ignored :
 computation divides by zero. Such a share cannot be created by the registry (C11: committees of 4/7/10/13). -/
 theorem C08_empty_committee_would_panic :
     (validate ctx0 State.empty
-        { inputOf { round0Proposal with round := 1 } (1616508000 + 12 * 32000) with share := some { share4 with committee := [] } }).2
+        { inputAt { round0Proposal with round := 1 } (1616508000 + 12 * 32000) with share := some { share4 with committee := [] } }).2
       = .panic .leaderModZero := by decide
 
 /-! ## size limits precede decoding -/
@@ -231,8 +223,8 @@ theorem C08_size_limit_precedes_decoding (x : Ctx) (st : State) (i : Input) (b :
 
 /-- non-vacuity of the main theorem's hypotheses and a non-trivial accepted instance -/
 example : praterCfg.WF := ⟨by decide, by decide, by decide, by decide⟩
-example : InputWF (inputOf round0Proposal 0) := by
+example : InputWF (inputAt round0Proposal 0) := by
   intro sh h; cases h; exact ⟨by decide, by decide⟩
-example : (validate ctx0 State.empty (inputOf { round0Proposal with round := 1 } (1616508000 + 12 * 32000))).2 = .accept := by decide
+example : (validate ctx0 State.empty (inputAt { round0Proposal with round := 1 } (1616508000 + 12 * 32000))).2 = .accept := by decide
 
 end Ssv.Validation
